@@ -1,5 +1,6 @@
 mod b64;
 mod backends;
+mod drive_paserk;
 mod drive_tokens;
 mod keys;
 mod obs_b64;
@@ -34,6 +35,19 @@ fn main() {
             println!("lines={}", rec.finish());
         }
         "gen-fixtures" => keys::gen_fixtures(),
+        "paserk" => {
+            let mut rec = Recorder::create(&out);
+            let backends: Vec<String> = arg(&args, "--backends").map(|b| b.split(',').map(|x| x.to_string()).collect()).unwrap_or_else(|| backends::ALL.iter().map(|x| x.to_string()).collect());
+            let cfg = drive_paserk::Cfg { thorough, seed, mode: arg(&args, "--mode").unwrap_or_else(|| "roundtrip".into()), backends };
+            std::panic::set_hook(Box::new(|_| {}));
+            let st = drive_paserk::run(&mut rec, &cfg);
+            if let Some(t) = arg(&args, "--table") {
+                rec.dump_table(&t);
+            }
+            let distinct = rec.distinct();
+            println!("{}", serde_json::json!({"lines": rec.finish(), "wraps": st.wraps, "unwraps": st.unwraps, "pke_seals": st.pke_seals,
+                "rsa_c_leading_zero": st.rsa_c_leading_zero, "skipped_over_budget": st.skipped_over_budget, "distinct_byte_strings": distinct}));
+        }
         "tokens" => {
             let mut rec = Recorder::create(&out);
             let backends: Vec<String> = arg(&args, "--backends").map(|b| b.split(',').map(|x| x.to_string()).collect()).unwrap_or_else(|| backends::ALL.iter().map(|x| x.to_string()).collect());
